@@ -29,6 +29,8 @@ cmp -s "$ROOT/build/gen/RectLeaf_gen.v" "$ROOT/coq/Gen/RectLeaf_gen.v" || cp "$R
 cmp -s "$ROOT/build/gen/NewPoly_gen.v" "$ROOT/coq/Gen/NewPoly_gen.v" || cp "$ROOT/build/gen/NewPoly_gen.v" "$ROOT/coq/Gen/NewPoly_gen.v"
 "$ROOT/build/vh" kernels -out "$ROOT/build/gen/kernels" "$ROOT/build/gen/Kernels_gen.v" >/dev/null || exit 1
 cmp -s "$ROOT/build/gen/Kernels_gen.v" "$ROOT/coq/Gen/Kernels_gen.v" || cp "$ROOT/build/gen/Kernels_gen.v" "$ROOT/coq/Gen/Kernels_gen.v"
+"$ROOT/build/vh" kernels2 -out "$ROOT/build/gen/kernels2" "$ROOT/build/gen/Kernels2_gen.v" >/dev/null || exit 1
+cmp -s "$ROOT/build/gen/Kernels2_gen.v" "$ROOT/coq/Gen/Kernels2_gen.v" || cp "$ROOT/build/gen/Kernels2_gen.v" "$ROOT/coq/Gen/Kernels2_gen.v"
 cd "$ROOT/coq"
 if [ ! -f Makefile ] || [ _CoqProject -nt Makefile ]; then
   coq_makefile -f _CoqProject -o Makefile >/dev/null
